@@ -442,6 +442,16 @@ func tagRules(x *Ctx) {
 				}
 			}
 		}
+		nSel := len(sel)
+		// the same dispatch written as a package-level table tag -> decoder, indexed by the tag found
+		if len(got) == 0 {
+			for _, v := range sel {
+				if tbl := tagDispatchTable(x, v.Results()[0], tag); tbl != nil {
+					got = tbl
+					nSel = 2
+				}
+			}
+		}
 		var ks []string
 		for k, v := range got {
 			ks = append(ks, k+"->"+v)
@@ -453,7 +463,80 @@ func tagRules(x *Ctx) {
 				ok = false
 			}
 		}
-		x.C.Obl("C10.R6", "dispatch", x.pos(f), "the generic decoder hands a node tagged as delegation / invocation to that package's FromIPLD and nothing else succeeds", ok && len(sel) == 2, strings.Join(ks, "; "))
+		x.C.Obl("C10.R6", "dispatch", x.pos(f), "the generic decoder hands a node tagged as delegation / invocation to that package's FromIPLD and nothing else succeeds", ok && nSel == 2, strings.Join(ks, "; "))
 		x.noPath("C10.R6", "dispatch:findtag", f, paths.WantSuccess, paths.CallFails(callee("token/internal/envelope.FindTag")), 0, "no token unless the tag was found")
 	}
+}
+
+// tagDispatchTable reads `table[tag](node)` - table a package-level map literal from tag constants to decoder
+// functions, tag the result of FindTag(node), the comma-ok result checked by the caller - as the association
+// tag constant -> decoder name; nil if r is not of that form.
+func tagDispatchTable(x *Ctx, r *paths.Term, tag string) map[string]string {
+	ct, _ := paths.CallOf(r)
+	if ct == nil || ct.Op != "dyncall" || len(ct.Args) != 2 || ct.Args[1].String() != "arg0" {
+		return nil
+	}
+	ft := ct.Args[0]
+	if ft.Op == "extract" {
+		ft = ft.Args[0]
+	}
+	if ft.Op != "lookup" || ft.Args[1].String() != tag || ft.Args[0].Op != "load" || ft.Args[0].Args[0].Op != "global" {
+		return nil
+	}
+	g, ok := ft.Args[0].Args[0].Val.(*ssa.Global)
+	if !ok {
+		return nil
+	}
+	out := map[string]string{}
+	init := g.Pkg.Func("init")
+	if init == nil {
+		return nil
+	}
+	var m ssa.Value
+	for _, b := range init.Blocks {
+		for _, in := range b.Instrs {
+			if st, ok := in.(*ssa.Store); ok && st.Addr == ssa.Value(g) {
+				m = st.Val
+			}
+		}
+	}
+	for _, b := range init.Blocks {
+		for _, in := range b.Instrs {
+			mu, ok := in.(*ssa.MapUpdate)
+			if !ok || mu.Map != m {
+				continue
+			}
+			k, ok := mu.Key.(*ssa.Const)
+			if !ok {
+				return nil
+			}
+			v := mu.Value
+			if ctv, ok := v.(*ssa.ChangeType); ok {
+				v = ctv.X
+			}
+			fn, ok := v.(*ssa.Function)
+			if !ok {
+				return nil
+			}
+			name := load.ShortName(fn)
+			// an adapter (a function literal that only forwards to a typed decoder) stands for that decoder
+			if fn.Parent() != nil || !(fn.Object() != nil && fn.Object().Exported()) {
+				if sel, _, err := x.E.Select(fn, paths.WantSuccess); err == nil && len(sel) > 0 {
+					for _, pk := range []string{"token/delegation", "token/invocation"} {
+						all := true
+						for _, v := range sel {
+							if !decodesWith(v.Results()[0], pk, "FromIPLD", "arg0") {
+								all = false
+							}
+						}
+						if all {
+							name = pk + ".FromIPLD"
+						}
+					}
+				}
+			}
+			out[k.Value.ExactString()] = name
+		}
+	}
+	return out
 }
